@@ -70,7 +70,9 @@ pub open spec fn bdiff_post(a: BoundSet, b: BoundSet, r: Option<Vec<BoundSet>>) 
         &&& swf(vs@)
         &&& (bs_small(a) && bs_small(b)) ==> ssmall(vs@)
         &&& !overlap ==> vs@.len() == 1 && vs@[0] == a
-        &&& overlap && left && right ==> vs@.len() == 2 && cut_of(*vs@[0].lower) == cl && cut_of(*vs@[0].upper) == ol && cut_of(*vs@[1].lower) == ou && cut_of(*vs@[1].upper) == cu
+        // the part of `a` below `b` and the part above it, in either order (the order of alternatives means nothing)
+        &&& overlap && left && right ==> vs@.len() == 2 && ((cut_of(*vs@[0].lower) == cl && cut_of(*vs@[0].upper) == ol && cut_of(*vs@[1].lower) == ou && cut_of(*vs@[1].upper) == cu)
+                                                            || (cut_of(*vs@[1].lower) == cl && cut_of(*vs@[1].upper) == ol && cut_of(*vs@[0].lower) == ou && cut_of(*vs@[0].upper) == cu))
         &&& overlap && left && !right ==> vs@.len() == 1 && cut_of(*vs@[0].lower) == cl && cut_of(*vs@[0].upper) == ol
         &&& overlap && !left && right ==> vs@.len() == 1 && cut_of(*vs@[0].lower) == ou && cut_of(*vs@[0].upper) == cu
     }
